@@ -1605,7 +1605,8 @@ class Alarm(Component):
         trigger = self.get("TRIGGER")
         if trigger is None:
             return "START"
-        return trigger.params.get("RELATED", "START")
+        # parameter values that are not quoted are case-insensitive
+        return trigger.params.get("RELATED", "START").upper()
 
     @TRIGGER_RELATED.setter
     def TRIGGER_RELATED(self, value: str):
